@@ -35,6 +35,19 @@ class _Packet:
         return iter(self.payload)
 
 
+class _Frame:
+    """iterating yields the payload bytes that are checksummed; bytes(frame) is the wire format (payload + checksum)"""
+
+    def __init__(self, payload):
+        self.payload = bytes(payload)
+
+    def __iter__(self):
+        return iter(self.payload)
+
+    def __bytes__(self):
+        return self.payload + bytes([bitserial(self.payload)])
+
+
 class C20(Lab):
     pid = "C20"
     design_ref = "3.12"
@@ -159,6 +172,15 @@ class C20(Lab):
             # the same for other byte containers
             if len(d) <= 16 and (self.call(list(d)) != want or self.call(bytearray(d)) != want or self.call(memoryview(d)) != want or self.call(tuple(d)) != want):
                 raise Violation("C20/value", f"crc7 differs between bytes/list/bytearray for {d.hex()}")
+            # containers whose memory layout differs from the values they yield (16/32-bit arrays holding byte values,
+            # a frame object whose __bytes__ is the wire format including the checksum): crc7 is over the values yielded
+            if len(d) <= 32:
+                import array
+
+                wide = [array.array("H", list(d)), array.array("i", list(d)), memoryview(array.array("H", list(d))), _Frame(d)]
+                for w in wide:
+                    if self.call(w) != want:
+                        raise Violation("C20/value-wide-container", f"crc7({type(w).__name__} holding the byte values {d.hex()}) = {self.call(w)}, bit-serial {want}")
             # one-shot iterables (an iterator over a receive buffer, a generator): consumed once, same result
             if len(d) <= 64:
                 for mk in (lambda: iter(d), lambda: (x for x in d), lambda: map(int, d), lambda: reversed(bytes(reversed(d)))):
